@@ -241,6 +241,15 @@ func randID(c *core.Ctx) string {
 	return string(b)
 }
 
+func randID40(c *core.Ctx) string {
+	const hexd = "0123456789abcdef"
+	b := make([]byte, 40)
+	for i := range b {
+		b[i] = hexd[c.Rng.Intn(16)]
+	}
+	return string(b)
+}
+
 func genAccept(c *core.Ctx) {
 	cat := rogueCatalogue(c)
 	var cases []*acceptCase
@@ -396,6 +405,7 @@ type proxyCase struct {
 	Reply string `json:"reply"` // ok fail unsup noresult garbage eof
 	Msg   string `json:"msg,omitempty"`
 	Hello *greet `json:"hello"`
+	Echo  *greet `json:"echo,omitempty"` // reply ok: extra attributes of the reply
 
 	// observed
 	Res       string `json:"res"` // returned | <class> | hang | panic | otherconn
@@ -417,7 +427,11 @@ func (pc *proxyCase) run() {
 	eof := false
 	switch pc.Reply {
 	case "ok":
-		data = controlAdBytes(map[string]any{ccb.AttrResult: true})
+		if pc.Echo != nil {
+			e := pc.Echo.resolve(pc.ID, pc.Prev)
+			pc.Echo = &e
+		}
+		data = controlAdBytes(okReplyFields(pc.Echo))
 	case "fail":
 		data = controlAdBytes(map[string]any{ccb.AttrResult: false, ccb.AttrErrorString: pc.Msg})
 	case "unsup":
@@ -489,7 +503,7 @@ func (pc *proxyCase) oracle() []failure {
 	}
 	m := pc.Reply == "ok" && pc.Hello.Kind == "hello" && pc.Hello.Cmd == ccb.CommandReverseConnect && ((pc.Hello.HasClaim && pc.Hello.Claim == pc.ID) || (!pc.Hello.HasClaim && pc.ID == ""))
 	if pc.Res == "returned" && !m {
-		fs = append(fs, failure{"c20-proxy-returned-without-matching-hello", fmt.Sprintf("proxyRequestOnStream(id=%q) returned the broker connection after reply=%s hello=%s (claim %q)", pc.ID, pc.Reply, pc.Hello, pc.Hello.Claim)})
+		fs = append(fs, failure{"c20-proxy-returned-without-matching-hello", fmt.Sprintf("proxyRequestOnStream(id=%q) returned the broker connection after reply=%s (reply ClaimId %s) hello=%s (claim %q)", pc.ID, pc.Reply, echoDesc(pc.Echo), pc.Hello, pc.Hello.Claim)})
 	}
 	if (pc.Reply == "fail" || pc.Reply == "noresult") && !(pc.Res == "proxyrefused" && strings.Contains(pc.ErrText, pc.Msg)) {
 		fs = append(fs, failure{"c20-broker-failure-ignored", fmt.Sprintf("proxyRequestOnStream: broker refused with %q but the result was %s", pc.Msg, pc.Res)})
@@ -501,7 +515,7 @@ func (pc *proxyCase) oracle() []failure {
 }
 
 func (pc *proxyCase) term() string {
-	rep := map[string]string{"ok": "PrOk", "unsup": "PrUnsupported", "garbage": "PrUnreadable", "eof": "PrUnreadable"}[pc.Reply]
+	rep := map[string]string{"ok": "(PrOk " + echoTerm(pc.Echo) + ")", "unsup": "PrUnsupported", "garbage": "PrUnreadable", "eof": "PrUnreadable"}[pc.Reply]
 	if pc.Reply == "fail" || pc.Reply == "noresult" {
 		rep = "(PrFail " + bytesTerm(pc.Msg) + ")"
 	}
@@ -532,6 +546,18 @@ func genProxyFn(c *core.Ctx) {
 	}
 	for _, g := range []greet{cat[1], cat[2], legit(), cat[0]} {
 		runOne(&proxyCase{ID: "", Prev: randID(c), Reply: "ok", Hello: ptr(g)}, "emptyid|"+g.String())
+	}
+	// decorated success replies x hellos carrying each candidate id
+	for _, ef := range []string{"right", "prev", "lit", "empty", "int", "absent", "prefix", "upper"} {
+		for _, hf := range []string{"right", "prev", "lit", "empty", "absent", "int", "prefix", "upper"} {
+			e, h := helloForm(ef), helloForm(hf)
+			e.Arg, h.Arg = 20, 20
+			id := randID(c)
+			if ef == "lit" || hf == "lit" || c.Rng.Intn(3) == 0 {
+				id = randID40(c)
+			}
+			runOne(&proxyCase{ID: id, Prev: randID40(c), Reply: "ok", Echo: &e, Hello: &h}, "echo|"+ef+"|"+hf)
+		}
 	}
 	for _, rep := range []string{"ok", "fail", "unsup", "noresult", "garbage", "eof"} {
 		for hi, h := range hellos {
